@@ -458,7 +458,7 @@ pub fn run(args: Args) -> ! {
             reported += 1;
         };
         // tags compared for equality across configurations of the same class
-        for tag in ["P", "S", "R", "TP", "D", "B", "TD", "TB", "TO", "TR", "TM", "TQ", "E", "EB", "EP"] {
+        for tag in ["P", "S", "R", "TP", "D", "DD", "B", "TD", "TB", "TO", "TR", "TM", "TQ", "E", "EB", "EP"] {
             let mut groups: BTreeMap<String, Vec<(&str, &String)>> = BTreeMap::new();
             for (name, m) in &tables {
                 if let Some(v) = m.get(&(i, tag.to_string())) {
@@ -549,6 +549,20 @@ pub fn run(args: Args) -> ! {
                 fail(&mut rep, format!("item {i}: configuration `{name}`: two toml::Value trees with the same entries, filled in opposite orders, do not compare equal\n{}", lines[i].chars().take(300).collect::<String>()));
             }
             Expect::Tree(tree) => {
+                // the decorated print-out is valid TOML with the tree's content (checked once, on
+                // the default configuration's output; the others must print the same bytes)
+                if let Some(v) = tables.get("default").and_then(|m| m.get(&(i, "DD".to_string()))) {
+                    let text = unhex(v);
+                    match text.parse::<toml_edit::DocumentMut>() {
+                        Ok(d) => {
+                            if let Err(e) = crate::model::diff_tbl(&crate::model::from_doc(&d), &super::c06::printed_model(tree), crate::model::Cmp::EXACT) {
+                                fail(&mut rep, format!("item {i}: the decorated print-out decodes to a different tree: {e}\n{text}"));
+                            }
+                            rep.stats.class("decorated-print-checked");
+                        }
+                        Err(e) => fail(&mut rep, format!("item {i}: the decorated print-out (CRLF decoration supplied through the API) is not valid TOML: {e}\n{text:?}")),
+                    }
+                }
                 let mut want = String::new();
                 dump_tbl(tree, false, &mut want);
                 for (name, m) in &tables {
@@ -566,7 +580,7 @@ pub fn run(args: Args) -> ! {
         }
     }
     rep.extra.insert("configurations".into(), json!(configs.iter().map(|c| json!({"name": c.name, "features": c.features})).collect::<Vec<_>>()));
-    for c in ["config.default", "config.perf", "config.preserve_order", "config.edit-parse-only", "config.edit-display-only", "config.all-unbounded", "order.insertion-checked", "order.sorted-checked", "map-history-checked", "edit-history-checked", "edit-history.sections>20", "overlimit.accepted-unbounded", "overlimit.rejected-bounded"] {
+    for c in ["config.default", "config.perf", "config.preserve_order", "config.edit-parse-only", "config.edit-display-only", "config.all-unbounded", "order.insertion-checked", "order.sorted-checked", "map-history-checked", "decorated-print-checked", "edit-history-checked", "edit-history.sections>20", "overlimit.accepted-unbounded", "overlimit.rejected-bounded"] {
         rep.require_class(c);
     }
     rep.finish()
